@@ -123,6 +123,8 @@ type wWorld struct {
 	crashed      map[NodeID]bool                        // crashed or silent replicas: send and receive nothing
 	fetchFail    float64                                // probability that a block fetch fails (lost request/reply)
 	fetchDeny    func(req NodeID, h hotstuff.Hash) bool // scripted fetch failures
+	sendFail     float64                                // probability that Vote / NewView report a send error (message lost)
+	sendDeny     func(from NodeID, payload any) bool    // scripted send failures
 }
 
 type wTimeoutInfo struct {
@@ -219,7 +221,15 @@ func (s *wSender) NewView(id hotstuff.ID, si hotstuff.SyncInfo) error {
 	if _, ok := s.w.byID[id]; !ok {
 		return fmt.Errorf("replica %d not found", id)
 	}
-	s.send(id, hotstuff.NewViewMsg{ID: s.node.id.ReplicaID, SyncInfo: si, FromNetwork: true})
+	msg := hotstuff.NewViewMsg{ID: s.node.id.ReplicaID, SyncInfo: si, FromNetwork: true}
+	if (s.w.sendDeny != nil && s.w.sendDeny(s.node.id, msg)) || (s.w.sendFail > 0 && s.w.rng.Float64() < s.w.sendFail) {
+		// an RPC error does not tell whether the message got through: half of them did
+		if s.w.rng.Intn(2) == 0 {
+			s.send(id, msg)
+		}
+		return fmt.Errorf("injected send failure")
+	}
+	s.send(id, msg)
 	return nil
 }
 
@@ -227,7 +237,15 @@ func (s *wSender) Vote(id hotstuff.ID, pc hotstuff.PartialCert) error {
 	if _, ok := s.w.byID[id]; !ok {
 		return fmt.Errorf("replica %d not found", id)
 	}
-	s.send(id, hotstuff.VoteMsg{ID: s.node.id.ReplicaID, PartialCert: pc})
+	msg := hotstuff.VoteMsg{ID: s.node.id.ReplicaID, PartialCert: pc}
+	if (s.w.sendDeny != nil && s.w.sendDeny(s.node.id, msg)) || (s.w.sendFail > 0 && s.w.rng.Float64() < s.w.sendFail) {
+		// an RPC error does not tell whether the message got through: half of them did
+		if s.w.rng.Intn(2) == 0 {
+			s.send(id, msg)
+		}
+		return fmt.Errorf("injected send failure")
+	}
+	s.send(id, msg)
 	return nil
 }
 
@@ -283,6 +301,7 @@ type wSpec struct {
 	withhold  bool
 	cache     uint
 	fetchFail float64
+	sendFail  float64
 	crypto    string // signature scheme: ecdsa (default), eddsa, bls12
 }
 
@@ -293,7 +312,7 @@ func newWorld(spec wSpec) (*wWorld, error) {
 		partition: map[NodeID]int{}, blocks: map[hotstuff.Hash]*hotstuff.Block{},
 		dropProb: spec.dropProb, dupProb: spec.dupProb, withhold: spec.withhold,
 		aggOf: map[hotstuff.Hash]*hotstuff.AggregateQC{}, timeoutIdx: map[string]wTimeoutInfo{},
-		timeoutsSeen: map[hotstuff.View][]hotstuff.TimeoutMsg{}, crashed: map[NodeID]bool{}, fetchFail: spec.fetchFail,
+		timeoutsSeen: map[hotstuff.View][]hotstuff.TimeoutMsg{}, crashed: map[NodeID]bool{}, fetchFail: spec.fetchFail, sendFail: spec.sendFail,
 	}
 	w.regBlock(hotstuff.GetGenesis())
 	isIn := func(l []hotstuff.ID, x hotstuff.ID) bool {
